@@ -24,13 +24,13 @@ Theorem C03_scalar_merge_value : forall fuel v tag raw st a l location reference
   pending_from_events (S fuel) [EScalar v tag raw st a l] location reference =
   if scalar_is_nullish v st
   then POk [] (replay_with_reference [EScalar v tag raw st a l] reference)
-  else PErr (Err E_MergeValueNotMapOrSeqOfMaps l).
+  else PErr (attach_alias_locations (Err E_MergeValueNotMapOrSeqOfMaps l) reference l).
 Proof. exact merge_value_scalar. Qed.
 Check C03_scalar_merge_value : forall fuel v tag raw st a l location reference,
   pending_from_events (S fuel) [EScalar v tag raw st a l] location reference =
   if scalar_is_nullish v st
   then POk [] (replay_with_reference [EScalar v tag raw st a l] reference)
-  else PErr (Err E_MergeValueNotMapOrSeqOfMaps l).
+  else PErr (attach_alias_locations (Err E_MergeValueNotMapOrSeqOfMaps l) reference l).
 Print Assumptions C03_scalar_merge_value.
 
 Theorem C03_later_merge_first : forall b stack,
